@@ -123,81 +123,7 @@ func runC08(c *Ctx) {
 	}
 
 	R.Rule("R-no-dispatch-after-close", "E2+E4+call graph", "after a dispatch that may close the connection (QUIT, error threshold, recovered panic) the command loop passes a branch on state written by Conn.Close before it dispatches another command", 2)
-	if f := c.A.Func("(*Server).handleConn"); f != nil {
-		closeF := c.A.Func("(*Conn).Close")
-		closing := map[*types.Var]bool{}
-		if closeF != nil {
-			for k := range c.F.MayWrite(closeF) {
-				closing[k] = true
-			}
-		}
-		isDispatch := func(in ssa.Instruction) bool {
-			return (isStaticCall(in, "(*Conn).handle") || isStaticCall(in, "(*Conn).protocolError")) && s.InstrMay(in)[lClose]
-		}
-		isCloseCheck := func(in ssa.Instruction) bool {
-			iff, ok := in.(*ssa.If)
-			if !ok {
-				return false
-			}
-			var fs []*types.Var
-			collectFields(iff.Cond, &fs, 0)
-			for _, fl := range fs {
-				if closing[fl] {
-					return true
-				}
-			}
-			// call of a package function reading such a field
-			var found bool
-			var walk func(v ssa.Value, d int)
-			walk = func(v ssa.Value, d int) {
-				if d > 4 || v == nil {
-					return
-				}
-				switch x := v.(type) {
-				case *ssa.Call:
-					if g := staticCallee(&x.Call); g != nil && inSmtp(g) {
-						for k := range c.F.MayRead(g) {
-							if closing[k] {
-								found = true
-							}
-						}
-					}
-				case *ssa.UnOp:
-					walk(x.X, d+1)
-				case *ssa.BinOp:
-					walk(x.X, d+1)
-					walk(x.Y, d+1)
-				case *ssa.Extract:
-					walk(x.Tuple, d+1)
-				}
-			}
-			walk(iff.Cond, 0)
-			return found
-		}
-		n := 0
-		allInstrs(f, func(in ssa.Instruction) {
-			if !isDispatch(in) {
-				return
-			}
-			n++
-			site := in
-			v2 := RunPend(f, PendRule{
-				Trig:  func(x ssa.Instruction) bool { return x == site },
-				Disch: isCloseCheck,
-				Forbid: func(x ssa.Instruction) bool {
-					return isStaticCall(x, "(*Conn).handle") || isStaticCall(x, "(*Conn).protocolError")
-				},
-			})
-			d := ""
-			if len(v2) > 0 {
-				d = fmt.Sprintf("after the dispatch at %s (which may close the connection: QUIT, too many errors, recovered panic) the loop reaches the dispatch at %s without testing any state written by Conn.Close: commands still buffered are executed and a new session is created", c.P.InstrPos(site), c.P.InstrPos(v2[0].At))
-			}
-			R.Ob(c.siteKey(site, "close check before next dispatch"), c.P.InstrPos(site), len(v2) == 0, d)
-		})
-		if n == 0 {
-			R.Ob("(*Server).handleConn/dispatch sites", c.P.Pos(f.Pos()), false, "no dispatch site that may close the connection found")
-		}
-	}
+	ruleNoDispatchAfterClose(c)
 
 	R.Rule("R-giveup-closes", "E2 must-pass-through", "a reply by which the server gives up on the connection (421) is followed, on every path, by Conn.Close before the function returns (in the command loop: by the return that runs the deferred Close)", 4)
 	nGive := 0
@@ -410,6 +336,89 @@ func ruleGoBounded(c *Ctx) {
 					R.Ob(c.siteKey(in, "send on a buffered channel"), c.P.InstrPos(in), strings.HasPrefix(d, "makechan(") && d != "makechan(0)", "send on "+d)
 				}
 			})
+		}
+	}
+}
+
+// ruleNoDispatchAfterClose (C08 R-no-dispatch-after-close, C19): the command loop tests state written by Conn.Close
+// between a dispatch that may close the connection and the next dispatch. For C19 it is what keeps commands buffered
+// behind the closing error from being run on a connection whose session is already gone (nil session: recovered panic).
+func ruleNoDispatchAfterClose(c *Ctx) {
+	R := c.R
+	_, s := c.Std()
+	if f := c.A.Func("(*Server).handleConn"); f != nil {
+		closeF := c.A.Func("(*Conn).Close")
+		closing := map[*types.Var]bool{}
+		if closeF != nil {
+			for k := range c.F.MayWrite(closeF) {
+				closing[k] = true
+			}
+		}
+		isDispatch := func(in ssa.Instruction) bool {
+			return (isStaticCall(in, "(*Conn).handle") || isStaticCall(in, "(*Conn).protocolError")) && s.InstrMay(in)[lClose]
+		}
+		isCloseCheck := func(in ssa.Instruction) bool {
+			iff, ok := in.(*ssa.If)
+			if !ok {
+				return false
+			}
+			var fs []*types.Var
+			collectFields(iff.Cond, &fs, 0)
+			for _, fl := range fs {
+				if closing[fl] {
+					return true
+				}
+			}
+			// call of a package function reading such a field
+			var found bool
+			var walk func(v ssa.Value, d int)
+			walk = func(v ssa.Value, d int) {
+				if d > 4 || v == nil {
+					return
+				}
+				switch x := v.(type) {
+				case *ssa.Call:
+					if g := staticCallee(&x.Call); g != nil && inSmtp(g) {
+						for k := range c.F.MayRead(g) {
+							if closing[k] {
+								found = true
+							}
+						}
+					}
+				case *ssa.UnOp:
+					walk(x.X, d+1)
+				case *ssa.BinOp:
+					walk(x.X, d+1)
+					walk(x.Y, d+1)
+				case *ssa.Extract:
+					walk(x.Tuple, d+1)
+				}
+			}
+			walk(iff.Cond, 0)
+			return found
+		}
+		n := 0
+		allInstrs(f, func(in ssa.Instruction) {
+			if !isDispatch(in) {
+				return
+			}
+			n++
+			site := in
+			v2 := RunPend(f, PendRule{
+				Trig:  func(x ssa.Instruction) bool { return x == site },
+				Disch: isCloseCheck,
+				Forbid: func(x ssa.Instruction) bool {
+					return isStaticCall(x, "(*Conn).handle") || isStaticCall(x, "(*Conn).protocolError")
+				},
+			})
+			d := ""
+			if len(v2) > 0 {
+				d = fmt.Sprintf("after the dispatch at %s (which may close the connection: QUIT, too many errors, recovered panic) the loop reaches the dispatch at %s without testing any state written by Conn.Close: commands still buffered are executed and a new session is created", c.P.InstrPos(site), c.P.InstrPos(v2[0].At))
+			}
+			R.Ob(c.siteKey(site, "close check before next dispatch"), c.P.InstrPos(site), len(v2) == 0, d)
+		})
+		if n == 0 {
+			R.Ob("(*Server).handleConn/dispatch sites", c.P.Pos(f.Pos()), false, "no dispatch site that may close the connection found")
 		}
 	}
 }
